@@ -135,6 +135,49 @@ def window_worker(part, chunk, method, dims, budget=1.0):
         part.state((method, s, k))
 
 
+def frontend_history(part, depth):
+    """
+    hidden state behind the front end: every sequence of up to `depth` front-end calls over a small alphabet (both
+    methods x colliding (count, dimension, seed) arguments, single-point and batch forms); every answer in every
+    history must equal what the generators give for those arguments alone
+    """
+    from chmpy import sampling as S
+
+    alphabet = []
+    for method in ("sobol", "kgf"):
+        for (n, D, seed) in ((4, 2, 1), (4, 2, 5), (2, 3, 1)):
+            alphabet.append((method, n, D, seed))
+        alphabet.append((method, 3, None, 7))  # single point: d1 = dimension
+    batch = {"sobol": S.quasirandom_sobol_batch, "kgf": S.quasirandom_kgf_batch}
+    single = {"sobol": S.quasirandom_sobol, "kgf": S.quasirandom_kgf}
+    want = {}
+    for (method, n, D, seed) in alphabet:
+        want[(method, n, D, seed)] = batch[method](seed, seed + n - 1, D) if D is not None else single[method](seed, n)
+    seen_states = set()
+    for L in range(1, depth + 1):
+        for hist in itertools.product(range(len(alphabet)), repeat=L):
+            part.ev()
+            # every history starts from freshly initialised module state (module-level caches are state too)
+            import importlib
+
+            S = importlib.reload(S)
+            for step, k in enumerate(hist):
+                method, n, D, seed = alphabet[k]
+                got = S.quasirandom(n, D, method=method, seed=seed) if D is not None else S.quasirandom(n, method=method, seed=seed)
+                part.tr()
+                w = want[alphabet[k]]
+                if got.shape != w.shape or np.abs(got - w).max() > (0.0 if method == "sobol" else 1e-12):
+                    part.fail("front-end-history:%s-after-%s" % (method, alphabet[hist[step - 1]][0] if step else "start"),
+                              "quasirandom%s returns other points than the %s generator after the call history %s"
+                              % ((n, D, method, seed), method, [alphabet[j] for j in hist[:step]]), {"kind": "history", "hist": list(hist)})
+                    break
+                # a caller mutating the returned array must not change later answers
+                got *= 0.0
+            seen_states.add(hist[-2:] if L > 1 else hist)
+    part.nstates(len(seen_states))
+    part.outcome(("history", depth))
+
+
 def reference_worker(part, dims):
     from chmpy.sampling import quasirandom_sobol_batch
 
@@ -158,6 +201,7 @@ def run(ctx):
     ctx.log("stratification done")
     net_check(ctx)
     ctx.pmap(reference_worker, [[d] for d in range(1, 14)])
+    frontend_history(ctx, 3 if ctx.thorough else 2)
     ctx.log("reference done")
     ws = windows(ctx.thorough)
     sob_dims = [1, 2, 3, 10, 100, 1000]
@@ -169,8 +213,8 @@ def run(ctx):
     ctx.pmap(window_worker, [ws[i::nchunk] for i in range(nchunk)], method="kgf", dims=kdims, budget=budget)
     ctx.rule = ("Sobol stratification: dims 1..1000 x m = 0..12 (complete); (0,m,2)-net: all 91 (m, box shape) pairs; direct reference for dims 1..13 x 4096 "
                 "seeds; batch = single = prefix rows on %d seed windows (all s in 1..64 x k in 0..64, s within +-2 of 2^1..2^20 and at 10^6 with k in "
-                "{0,1,2,256}) x dims %s (Sobol) / %d Korobov dimensions; front end; repeat calls; states = windows and (dimension, m) pairs"
-                % (len(ws), sob_dims, len(kdims)))
+                "{0,1,2,256}) x dims %s (Sobol) / %d Korobov dimensions; front end incl. all call histories of length <= %d over 8 colliding front-end calls (hidden state); repeat calls; states = windows and (dimension, m) pairs"
+                % (len(ws), sob_dims, len(kdims), 3 if ctx.thorough else 2))
     ctx.bounds = {"windows": len(ws), "sobol_dims": sob_dims, "korobov_dims": kdims, "stratification": "dims 1..1000, m<=12"}
     ctx.assumptions = ["Sobol comparisons are bit-exact; Korobov to 1e-9", "work budget: windows with (last seed x dimension) above %.1e are skipped for Sobol, above %.1e x window length only the window end points are compared with the single-point generator" % (3e8 * budget, 2e8 * budget),
                        "the compiled extension modules are exercised as built (Cython is not available offline)"]
@@ -185,5 +229,7 @@ def replay(ctx, case):
         net_check(ctx)
     elif k == "ref":
         reference_worker(ctx, [case["d"]])
+    elif k == "history":
+        frontend_history(ctx, 3)
     else:
         window_worker(ctx, [(case["s"], case["k"])], case["method"], [case["D"]])
